@@ -102,7 +102,8 @@ theorem exactly_once_clean (cfg : Cfg) (root : Stage) (hc : root.clean cfg = tru
       ∧ s.sh.finished = s.sh.registered ∧ s.sh.pending = 0 := by
   rcases invNP_reachable hc hr with hi | hm
   · exact absurd ht (initPhase_not_terminal hi)
-  · exact mainNP_terminal hm (invOnce_reachable hr) ht
+  · obtain ⟨f, h1, h2, h3, h4, h5, _⟩ := mainNP_terminal hm (invOnce_reachable hr) ht
+    exact ⟨f, h1, h2, h3, h4, h5⟩
 
 /-- **exactly_once_no_panic.** If no stage of the tree panics (and no task is rejected) then, for
 every variant and every schedule, at the end of the run the callback has fired exactly once, and
@@ -197,6 +198,30 @@ theorem completion_under_rejection_stmt (arg : CompleteArg) : CompletionUnderRej
   intro root s hr ht
   obtain ⟨f, hf, _⟩ := completion_under_rejection arg root s hr ht
   rw [hf]; rfl
+
+/-! ## one request, one response (the leaf request as a whole) -/
+
+/-- **response_exactly_once.** A task request whose pipeline loses no completion under `cfg` gets
+exactly one response — from the completion callback; `Process` returns `nil`, so
+`TaskHandler.process` does not answer a second time — for every stage tree and schedule; and a
+request that is refused before a pipeline exists gets exactly one (from `TaskHandler.process`). -/
+theorem response_exactly_once (cfg : Cfg) (rn tolerated : Bool) (root : Stage) (hc : root.clean cfg = true)
+    (s : State) (hr : Reachable cfg (init root) s) (ht : Terminal s) :
+    (runResponses ⟨false, rn⟩ tolerated s).length = 1 ∧ (noPipelineResponses ⟨false, rn⟩ .refused).length = 1 := by
+  obtain ⟨f, hf, _⟩ := exactly_once_clean cfg root hc s hr ht
+  refine ⟨?_, rfl⟩
+  cases tolerated <;> simp [runResponses, hf, responses, Leaf.sendResponse, Leaf.init]
+
+/-- … and it carries an error whenever a stage failed or panicked in the run (unless the failure is
+the not-found error the metadata callback answers as an empty result) -/
+theorem response_error_carried (sr rn : Bool) (root : Stage) (hc : root.clean ⟨.first, sr, rn⟩ = true)
+    (s : State) (hr : Reachable ⟨.first, sr, rn⟩ (init root) s) (ht : Terminal s) (hf : s.sh.failed = true) :
+    runResponses ⟨false, rn⟩ false s = [true] := by
+  rcases invNP_reachable hc hr with hi | hm
+  · exact absurd ht (initPhase_not_terminal hi)
+  · obtain ⟨f, hfd, _, _, _, _, hfb⟩ := mainNP_terminal hm (invOnce_reachable hr) ht
+    have harg : f.arg = true := error_carried sr rn root s hr f (by rw [hfd]; simp) (by rw [hfb]; exact hf)
+    simp [runResponses, hfd, responses, Leaf.sendResponse, Leaf.init, harg]
 
 /-! ## non-vacuity -/
 
@@ -314,6 +339,13 @@ theorem plan_panic_pooled_nonroot :
     outcome ⟨.first, true, false⟩ treeP (List.replicate 14 0 ++ List.replicate 5 1)
       = some ([⟨true, false, true, 3, 3⟩], 0, true) := by decide
 
+/-- if `Process` handed the pipeline's error back to `TaskHandler.process` as well, a failing request
+would be answered twice (the seeded change c19-6): the callback's response and the handler's -/
+theorem two_responses_if_process_returns_error :
+    (runSched ⟨.first, true, true⟩ (init treeS) (List.replicate 14 0)).map
+      (fun s => (terminalB s, runResponses ⟨true, true⟩ false s, runResponses ⟨false, true⟩ false s))
+      = some (true, [true, true], [true]) := by decide
+
 /-- the same panic in the pooled child's own task is recovered and completed -/
 theorem recovered_pooled_panic :
     outcome ⟨.own, false, false⟩ treeR (List.replicate 12 0 ++ [2, 2, 2] ++ [1, 1, 1, 1]) = some ([⟨true, true, true, 3, 3⟩], 0, true) := by
@@ -341,6 +373,14 @@ theorem tie_execTask : Generated.C19.execTaskSteps = execTaskOrder := by decide
 theorem tie_submit : Generated.C19.submitSteps = submitOrder currentCfg.rejectNotifies := by decide
 theorem tie_reject : Generated.C19.rejectSteps = rejectOrder currentCfg.rejectNotifies := by decide
 theorem tie_sendResponse : Generated.C19.sendResponseSteps = sendResponseOrder := by decide
+theorem tie_leafProcess : Generated.C19.leafProcessSteps = leafProcessOrder := by decide
+theorem tie_leafProcessDataSearch : Generated.C19.leafProcessDataSearchSteps = leafProcessDataSearchOrder := by decide
+theorem tie_leafProcessMetadataSuggest :
+    Generated.C19.leafProcessMetadataSuggestSteps = leafProcessMetadataSuggestOrder := by decide
+theorem tie_taskHandlerProcess : Generated.C19.taskHandlerProcessSteps = taskHandlerProcessOrder := by decide
+/-- after the pipeline was executed `processDataSearch` / `processMetadataSuggest` return `nil`: only the
+completion callback answers (hypothesis of `response_exactly_once`) -/
+theorem tie_processReturnsNil : Generated.C19.processReturnsPipelineErr = false := by decide
 
 /-- what the model decides about error propagation for the source as it is *now*: with the
 repaired step order the full-strength theorem applies, with the original one its negation -/
